@@ -338,10 +338,25 @@ Proof.
     inversion Hob as [Hbb]. rewrite Hbb. apply (cohp_here _ _ Hc1 b o1 E1). by rewrite <- Hdo.
 Qed.
 
+(** CreateAccount over an existing object carries the balance over *)
+Lemma reset_facts U W D a o : wf W D -> cohp W D -> objs D !! a = Some o ->
+  cohp W (reset_obj D a) /\ total U W (reset_obj D a) = total U W D.
+Proof.
+  intros Hwf Hc Ho. pose proof (reset_ext W D a Hwf) as He. unfold reset_obj in *. rewrite Ho in *. split.
+  - eapply (cohp_push W D _ (JReset a o)); [reflexivity| |done|].
+    + eapply pop1_of_ext; [exact He|reflexivity].
+    + intros b o' Hb Hd. cbn in Hb, Hd.
+      destruct (decide (a = b)) as [->|Hab]; [by rewrite lookup_insert in Hd|].
+      rewrite lookup_insert_ne in Hb by done. rewrite lookup_insert_ne in Hd by done. by apply (cohp_here _ _ Hc b o').
+  - apply lsumz_ext. intros b _. unfold view; cbn.
+    destruct (decide (a = b)) as [->|Hab]; [by rewrite lookup_insert, Ho|by rewrite lookup_insert_ne].
+Qed.
+
 (** * pure programs preserve the total of the cache view and coherence *)
 Fixpoint closedb (U : list N) (i : instr) : bool :=
   match i with
   | ICall t _ _ _ body => bool_decide (t ∈ U) && forallb (closedb U) body
+  | ICreate addrs _ _ _ _ body => forallb (fun t => bool_decide (t ∈ U)) addrs && forallb (closedb U) body
   | _ => true
   end.
 
@@ -350,6 +365,7 @@ Fixpoint nosd (i : instr) : bool :=
   match i with
   | ISelfdestruct _ => false
   | ICall _ _ _ _ body => forallb nosd body
+  | ICreate _ _ _ _ _ body => forallb nosd body
   | _ => true
   end.
 
@@ -366,17 +382,17 @@ Proof.
   split; [done|]. congruence.
 Qed.
 
-Lemma do_call_pure2 U order W D caller target value run :
+Lemma do_call_gen_pure2 force U order W D caller target value run :
   wf W D -> cohp W D -> world_ok W -> NoDup U -> caller ∈ U -> target ∈ U ->
   (forall D1, wf W D1 -> cohp W D1 -> pstep2 U W D1 (run (W, D1))) ->
-  pstep2 U W D (do_call order (W, D) caller target value run).
+  pstep2 U W D (do_call_gen force order (W, D) caller target value run).
 Proof.
-  intros Hwf Hc Hw Hnd Hcu Htu Hrun. unfold do_call, do_call_gen. rewrite !(load_id _ _ _ Hwf).
+  intros Hwf Hc Hw Hnd Hcu Htu Hrun. unfold do_call_gen. rewrite !(load_id _ _ _ Hwf).
   destruct (negb (value =? 0) && (cbal D caller <? value)).
   { split; [done|]. split; [by apply ext_refl|]. by split. }
   assert (HD0 : (if value =? 0 then D else D) = D) by (by destruct (value =? 0)). rewrite HD0.
   rewrite !(load_id _ _ _ Hwf).
-  destruct (negb false && match objs D !! target with None => true | Some _ => false end && (value =? 0) && negb (is_precompile target)).
+  destruct (negb force && match objs D !! target with None => true | Some _ => false end && (value =? 0) && negb (is_precompile target)).
   { split; [done|]. split; [by apply ext_refl|]. by split. }
   set (D2 := match objs D !! target with
              | Some _ => D
@@ -410,6 +426,12 @@ Proof.
       rewrite revert_to_self in H. unfold snapshot. fold (jlen D). exact H.
 Qed.
 
+Lemma do_call_pure2 U order W D caller target value run :
+  wf W D -> cohp W D -> world_ok W -> NoDup U -> caller ∈ U -> target ∈ U ->
+  (forall D1, wf W D1 -> cohp W D1 -> pstep2 U W D1 (run (W, D1))) ->
+  pstep2 U W D (do_call order (W, D) caller target value run).
+Proof. apply do_call_gen_pure2. Qed.
+
 Lemma after_call_pure2 U W D0 self catch rec r : world_ok W ->
   pstep2 U W D0 r -> pstep2 U W D0 (after_call self catch rec r).
 Proof.
@@ -423,19 +445,34 @@ Proof.
   destruct (catch || _); unfold pstep2; cbn [fst snd]; tauto.
 Qed.
 
+Lemma forall_list2 U order o W body : world_ok W ->
+  Forall (fun i => pure i = true -> nosd i = true -> closedb U i = true ->
+            forall order o self W D, world_ok W -> self ∈ U -> wf W D -> cohp W D ->
+              pstep2 U W D (exec_instr order o self i (W, D))) body ->
+  forallb pure body = true -> forallb nosd body = true -> forallb (closedb U) body = true ->
+  forall t D, t ∈ U -> wf W D -> cohp W D -> pstep2 U W D (exec_list order o t body (W, D)).
+Proof.
+  intros Hw. induction body as [|x body IHb]; intros IH Hp Hns Hcl t D Ht Hwf Hc; cbn [exec_list].
+  { split; [done|]. split; [by apply ext_refl|]. by split. }
+  cbn [forallb] in Hp, Hcl, Hns. apply andb_prop in Hp as [Hpx Hpb]. apply andb_prop in Hcl as [Hcx Hcb].
+  apply andb_prop in Hns as [Hnx Hnb]. inversion IH as [|? ? IHx IHrest]; subst.
+  apply (pstep2_seq U W D (exec_instr order o t x (W, D))).
+  - by apply IHx.
+  - intros D2 Hwf2 Hc2. by apply IHb.
+Qed.
+
 Theorem pure_instr2 U : NoDup U -> forall i, pure i = true -> nosd i = true -> closedb U i = true ->
   forall order o self W D, world_ok W -> self ∈ U -> wf W D -> cohp W D ->
     pstep2 U W D (exec_instr order o self i (W, D)).
 Proof.
   intros Hnd.
-  induction i as [k v| | |a|b|t v c r body IH|ad v c r sc body|p v c r] using instr_ind'; intros Hp Hns Hcl order o self W D Hw Hself Hwf Hc;
-    cbn [exec_instr].
-  - split; [done|]. split; [by apply set_state_ext|]. by apply set_state_facts.
-  - split; [done|]. split; [by apply add_log_ext|]. by apply add_log_facts.
-  - split; [done|]. split; [by apply ext_refl|]. by split.
-  - split; [done|]. cbn. rewrite load_id by done. split; [by apply ext_refl|]. by split.
+  induction i as [k v| | |a|b|t v c r body IH|ad v c r sc body IH|p v c r] using instr_ind'; intros Hp Hns Hcl order o self W D Hw Hself Hwf Hc.
+  - cbn [exec_instr]. split; [done|]. split; [by apply set_state_ext|]. by apply set_state_facts.
+  - cbn [exec_instr]. split; [done|]. split; [by apply add_log_ext|]. by apply add_log_facts.
+  - cbn [exec_instr]. split; [done|]. split; [by apply ext_refl|]. by split.
+  - cbn [exec_instr]. split; [done|]. cbn. rewrite load_id by done. split; [by apply ext_refl|]. by split.
   - discriminate.
-  - cbn [pure closedb nosd] in Hp, Hcl, Hns. apply andb_prop in Hcl as [Ht Hcb]. apply bool_decide_eq_true in Ht.
+  - cbn [exec_instr]. cbn [pure closedb nosd] in Hp, Hcl, Hns. apply andb_prop in Hcl as [Ht Hcb]. apply bool_decide_eq_true in Ht.
     apply after_call_pure2; [done|]. apply do_call_pure2; auto.
     intros D1 Hwf1 Hc1. destruct (N.leb 2 t && N.leb t 4).
     2:{ split; [done|]. split; [by apply ext_refl|]. by split. }
@@ -448,7 +485,37 @@ Proof.
     apply (pstep2_seq U W D1 (exec_instr order o t x (W, D1))).
     + by apply IHx.
     + intros D2 Hwf2 Hc2. by apply IHb.
-  - discriminate.
+  - (* CREATE *)
+    cbn [pure closedb nosd] in Hp, Hcl, Hns. apply andb_prop in Hcl as [Had Hcb].
+    rewrite exec_create_eq. rewrite !(load_id _ _ _ Hwf).
+    destruct (negb (v =? 0) && (cbal D self <? v)).
+    { apply after_call_pure2; [done|]. split; [done|]. split; [by apply ext_refl|]. by split. }
+    pose proof (set_state_ext W D self NONCE_SLOT (read_state W D self NONCE_SLOT + 1) Hwf) as Hen.
+    destruct (set_state_facts U W D self NONCE_SLOT (read_state W D self NONCE_SLOT + 1) Hwf Hc Hw) as [Hcn Htn].
+    cbv zeta. set (D1 := set_state W D self NONCE_SLOT (read_state W D self NONCE_SLOT + 1)) in *.
+    destruct (nth_error ad (Z.to_nat (read_state W D self NONCE_SLOT))) as [t|] eqn:Hnth.
+    2:{ apply after_call_pure2; [done|]. split; [done|]. split; [exact Hen|]. by split. }
+    assert (Ht : t ∈ U).
+    { apply nth_error_In in Hnth. rewrite forallb_forall in Had. specialize (Had t Hnth). by apply bool_decide_eq_true in Had. }
+    apply after_call_pure2; [done|].
+    assert (Hstep : pstep2 U W D1 (do_call_gen true order (W, D1) self t v (create_run order o t sc body))).
+    { apply do_call_gen_pure2; auto; [apply Hen|]. intros D2 Hwf2 Hc2. rewrite create_run_eq.
+      pose proof (reset_ext W D2 t Hwf2) as Her.
+      assert (Hrf : cohp W (reset_obj D2 t) /\ total U W (reset_obj D2 t) = total U W D2).
+      { destruct (objs D2 !! t) as [ot|] eqn:Eot; [by eapply reset_facts|]. unfold reset_obj. by rewrite Eot. }
+      destruct Hrf as [Hcr Htr].
+      destruct (forall_list2 U order o W body Hw IH Hp Hns Hcb t (reset_obj D2 t) Ht (proj1 Her) Hcr) as (HWb & Heb & Hcb2 & Htb).
+      destruct (exec_list order o t body (W, reset_obj D2 t)) as [[Wb Db] ocb].
+      cbn [fst snd] in HWb, Heb, Hcb2, Htb. subst Wb.
+      assert (He2 : ext W D2 Db) by (eapply ext_trans; eauto).
+      destruct ocb; unfold pstep2; cbn [fst snd].
+      - split; [done|]. destruct sc.
+        + destruct (set_state_facts U W Db t CODE_SLOT 1 (proj1 He2) Hcb2 Hw) as [Hcc Htc].
+          split; [eapply ext_trans; [exact He2|]; apply set_state_ext, He2|]. split; [done|]. congruence.
+        + split; [exact He2|]. split; [done|]. congruence.
+      - split; [done|]. split; [exact He2|]. split; [done|]. congruence. }
+    destruct Hstep as (HWs & Hes & Hcs & Hts). split; [exact HWs|]. split; [eapply ext_trans; [exact Hen|exact Hes]|].
+    split; [done|]. congruence.
   - discriminate.
 Qed.
 
@@ -466,7 +533,7 @@ Proof.
 Qed.
 
 (** * programs without SELFDESTRUCT never mark an object as self-destructed *)
-Definition jplain (e : jentry) : Prop := match e with JSuicide _ _ _ | JReset _ _ => False | _ => True end.
+Definition jplain (e : jentry) : Prop := match e with JSuicide _ _ _ => False | JReset _ pv => osui pv = false | _ => True end.
 Definition live (D : sdb) : Prop :=
   (forall a o, objs D !! a = Some o -> osui o = false) /\ (forall e, In e (journal D) -> jplain e).
 
@@ -509,6 +576,11 @@ Proof.
     + destruct (zg (store W) (a, k) =? v); [by apply live_set_obj|].
       apply live_set_obj; [apply live_japp; [done|exact I]|done].
 Qed.
+Lemma live_reset D a : live D -> live (reset_obj D a).
+Proof.
+  intros Hl. unfold reset_obj. destruct (objs D !! a) as [o|] eqn:E; [|done].
+  apply live_set_obj; [apply live_japp; [done|]|done]. cbn. by apply (proj1 Hl a o).
+Qed.
 Lemma live_undo D e r : live D -> journal D = e :: r -> live (undo (mksdb (objs D) r (dirties D) (logs D)) e).
 Proof.
   intros [Ho Hj] Hjr. rewrite undo_split.
@@ -522,6 +594,7 @@ Proof.
                 objs (undo_core (mksdb (objs D) r (dirties D) (logs D)) e)).
   { unfold undo_dirt. by destruct (dirtied e). }
   rewrite Hob. unfold undo_core. destruct e as [a0 p|a0 k p|a0| |a0 p pb|a0 pv]; cbn; try (by destruct He).
+  4:{ intros b ob. destruct (decide (a0 = b)) as [->|]; [rewrite lookup_insert; intros [= <-]; exact He|rewrite lookup_insert_ne by done; apply Ho]. }
   - destruct (objs D !! a0) as [o0|] eqn:E; cbn; [|exact Ho]. intros b ob.
     destruct (decide (a0 = b)) as [->|]; [rewrite lookup_insert; intros [= <-]; cbn; by apply (Ho b o0)|rewrite lookup_insert_ne by done; apply Ho].
   - destruct (objs D !! a0) as [o0|] eqn:E; cbn; [|exact Ho]. intros b ob.
@@ -538,14 +611,14 @@ Proof. intros Hl. unfold revert_to. by apply live_pop_n. Qed.
 
 Definition lstep (r : st * outcome) : Prop := live (snd (fst r)).
 
-Lemma do_call_live order W D caller target value run :
-  live D -> (forall W1 D1, live D1 -> lstep (run (W1, D1))) -> lstep (do_call order (W, D) caller target value run).
+Lemma do_call_gen_live force order W D caller target value run :
+  live D -> (forall W1 D1, live D1 -> lstep (run (W1, D1))) -> lstep (do_call_gen force order (W, D) caller target value run).
 Proof.
-  intros Hl Hrun. unfold do_call, do_call_gen, lstep.
+  intros Hl Hrun. unfold do_call_gen, lstep.
   destruct (negb (value =? 0) && (cbal (load W D caller) caller <? value)); [cbn; by apply live_load|].
   set (D0 := if value =? 0 then D else load W D caller).
   assert (Hl0 : live D0) by (unfold D0; destruct (value =? 0); [done|by apply live_load]).
-  destruct (negb false && match objs (load W D0 target) !! target with None => true | Some _ => false end && (value =? 0) && negb (is_precompile target)); [exact Hl0|].
+  destruct (negb force && match objs (load W D0 target) !! target with None => true | Some _ => false end && (value =? 0) && negb (is_precompile target)); [exact Hl0|].
   set (D2 := match objs (load W D0 target) !! target with
              | Some _ => load W D0 target
              | None => japp (set_obj (load W D0 target) target (mkobj 0 ∅ ∅ ∅ false)) (JCreate target)
@@ -558,6 +631,9 @@ Proof.
   destruct (run (W, add_bal W (sub_bal W D2 caller value) target value)) as [[W4 D4] oc]. cbn in Hrun.
   destruct oc; cbn; [done|by apply live_revert].
 Qed.
+Lemma do_call_live order W D caller target value run :
+  live D -> (forall W1 D1, live D1 -> lstep (run (W1, D1))) -> lstep (do_call order (W, D) caller target value run).
+Proof. apply do_call_gen_live. Qed.
 Lemma after_call_live self catch rec r : lstep r -> lstep (after_call self catch rec r).
 Proof.
   destruct r as [[W D] oc]. unfold lstep, after_call. cbn. intros Hl.
@@ -566,17 +642,28 @@ Proof.
   destruct (catch || _); exact H2.
 Qed.
 
+Lemma forall_list_live order o body :
+  Forall (fun i => pure i = true -> nosd i = true -> forall order o self W D, live D -> lstep (exec_instr order o self i (W, D))) body ->
+  forallb pure body = true -> forallb nosd body = true ->
+  forall t W D, live D -> lstep (exec_list order o t body (W, D)).
+Proof.
+  induction body as [|x body IHb]; intros IH Hp Hns t W D Hl; cbn [exec_list]; [exact Hl|].
+  cbn [forallb] in Hp, Hns. apply andb_prop in Hp as [Hpx Hpb]. apply andb_prop in Hns as [Hnx Hnb].
+  inversion IH as [|? ? IHx IHrest]; subst.
+  specialize (IHx Hpx Hnx order o t W D Hl). unfold lstep in IHx.
+  destruct (exec_instr order o t x (W, D)) as [[W2 D2] oc]. cbn in IHx. destruct oc; [|exact IHx]. by apply IHb.
+Qed.
+
 Theorem nosd_instr_live : forall i, pure i = true -> nosd i = true ->
   forall order o self W D, live D -> lstep (exec_instr order o self i (W, D)).
 Proof.
-  induction i as [k v| | |a|b|t v c r body IH|ad v c r sc body|p v c r] using instr_ind'; intros Hp Hns order o self W D Hl;
-    cbn [exec_instr]; unfold lstep.
-  - cbn. by apply live_set_state.
-  - cbn. by apply live_add_log.
-  - done.
-  - cbn. by apply live_load.
+  induction i as [k v| | |a|b|t v c r body IH|ad v c r sc body IH|p v c r] using instr_ind'; intros Hp Hns order o self W D Hl.
+  - cbn [exec_instr]; unfold lstep. cbn. by apply live_set_state.
+  - cbn [exec_instr]; unfold lstep. cbn. by apply live_add_log.
+  - cbn [exec_instr]; unfold lstep. done.
+  - cbn [exec_instr]; unfold lstep. cbn. by apply live_load.
   - discriminate.
-  - cbn [pure nosd] in Hp, Hns. apply after_call_live. apply do_call_live; [done|].
+  - cbn [exec_instr]. cbn [pure nosd] in Hp, Hns. apply after_call_live. apply do_call_live; [done|].
     intros W1 D1 Hl1. destruct (N.leb 2 t && N.leb t 4); [|exact Hl1].
     revert W1 D1 Hl1.
     induction body as [|x body IHb]; intros W1 D1 Hl1; [exact Hl1|].
@@ -585,7 +672,18 @@ Proof.
     specialize (IHx Hpx Hnx order o t W1 D1 Hl1). unfold lstep in IHx.
     destruct (exec_instr order o t x (W1, D1)) as [[W2 D2] oc]. cbn in IHx. destruct oc; [|exact IHx].
     by apply IHb.
-  - discriminate.
+  - (* CREATE *)
+    cbn [pure nosd] in Hp, Hns. rewrite exec_create_eq.
+    pose proof (live_load W D self Hl) as Hl0.
+    destruct (negb (v =? 0) && (cbal (load W D self) self <? v)); [by apply after_call_live|].
+    cbv zeta.
+    pose proof (live_set_state W (load W D self) self NONCE_SLOT (read_state W (load W D self) self NONCE_SLOT + 1) Hl0) as Hl1.
+    destruct (nth_error ad (Z.to_nat (read_state W (load W D self) self NONCE_SLOT))) as [t|]; [|by apply after_call_live].
+    apply after_call_live. apply do_call_gen_live; [done|].
+    intros W1 D2 Hl2. rewrite create_run_eq.
+    pose proof (forall_list_live order o body IH Hp Hns t W1 (reset_obj D2 t) (live_reset D2 t Hl2)) as Hb. unfold lstep in Hb.
+    destruct (exec_list order o t body (W1, reset_obj D2 t)) as [[Wb Db] ocb]. cbn [fst snd] in Hb.
+    destruct ocb; unfold lstep; cbn [fst snd]; [|exact Hb]. destruct sc; [by apply live_set_state|exact Hb].
   - discriminate.
 Qed.
 Lemma nosd_list_live order o self : forall body, forallb pure body = true -> forallb nosd body = true ->
